@@ -560,8 +560,19 @@ func repoCmd(args []string) error {
 		}
 		pre := rw.observe()
 		if prop == "C27" {
-			repoStatus(r, rw, row, cs, ri%gitEvery == 0)
+			repoStatus(r, rw, row, cs, ri%gitEvery == 0, "status")
 			rw.close()
+			// second pass: index entries carry cached stat data (size, mtime) and files that differ from
+			// the index were rewritten within the SAME second with the same size (racy situation); the
+			// expected status is the same - a metadata shortcut must not hide the modification
+			rw2, err := newRepoWorld(row)
+			if err == nil {
+				if err := rw2.statCache(row); err == nil {
+					r.Eval(1)
+					repoStatus(r, rw2, row, cs, false, "status-with-cached-stat")
+				}
+				rw2.close()
+			}
 			continue
 		}
 		opErr := rw.run(row)
@@ -716,10 +727,10 @@ func repoDiff(pre, post *repoObs, row *repoRow) string {
 }
 
 // repoStatus: C27 - go-git Status vs the specification, and (sampled) git status vs the specification.
-func repoStatus(r *rep.Report, rw *repoWorld, row *repoRow, cs map[string]any, withGit bool) {
+func repoStatus(r *rep.Report, rw *repoWorld, row *repoRow, cs map[string]any, withGit bool, label string) {
 	st, err := rw.w.Status()
 	if err != nil {
-		r.Diverge("status|error|"+normErr(err), "Status failed: "+err.Error(), cs)
+		r.Diverge(label+"|error|"+normErr(err), "Status failed: "+err.Error(), cs)
 		return
 	}
 	got := map[string]string{}
@@ -734,13 +745,13 @@ func repoStatus(r *rep.Report, rw *repoWorld, row *repoRow, cs map[string]any, w
 			g = "  "
 		}
 		if g != want {
-			r.Diverge("status|mismatch|want="+want+",got="+g+"|"+shape(row, p), fmt.Sprintf("Status reports %q for a path where git status --porcelain reports %q", g, want), cs)
+			r.Diverge("status|mismatch|want="+want+",got="+g+"|"+shape(row, p), fmt.Sprintf("Status (%s) reports %q for a path where git status --porcelain reports %q", label, g, want), cs)
 			break
 		}
 	}
 	for p := range got {
 		if _, ok := row.H[p]; !ok && got[p] != "  " {
-			r.Diverge("status|unexpected-path", "Status lists a path outside the universe: "+p, cs)
+			r.Diverge(label+"|unexpected-path", "Status lists a path outside the universe: "+p, cs)
 		}
 	}
 	if !withGit || !gitcli.Available() {
@@ -916,4 +927,51 @@ func gitTwin(r *rep.Report, row *repoRow) {
 		}
 	}
 	r.Traces++
+}
+
+
+// statCache gives every regular index entry cached stat data and places the worktree files in the
+// racy-git situation: same size, modification time inside the same second as the recorded one
+// (identical when the content is unchanged), index file clearly newer.
+func (rw *repoWorld) statCache(row *repoRow) error {
+	base := time.Now().Add(-time.Hour).Truncate(time.Second).Add(100 * time.Millisecond)
+	idx, err := rw.r.Storer.Index()
+	if err != nil {
+		return err
+	}
+	for _, e := range idx.Entries {
+		if e.Mode == filemode.Symlink {
+			continue
+		}
+		e.ModifiedAt = base
+		e.CreatedAt = base
+		e.Size = uint32(len(blobContent[rw.blobSym[e.Hash]]))
+	}
+	if err := rw.r.Storer.SetIndex(idx); err != nil {
+		return err
+	}
+	for _, p := range rw.paths {
+		w := row.W[p]
+		if w == "none" || w[0] == 'l' {
+			continue
+		}
+		mt := base
+		if w != row.I[p] {
+			mt = base.Add(200 * time.Millisecond)
+		}
+		if err := os.Chtimes(filepath.Join(rw.dir, filepath.FromSlash(p)), mt, mt); err != nil {
+			return err
+		}
+	}
+	it := base.Add(5 * time.Second)
+	if err := os.Chtimes(filepath.Join(rw.dir, ".git", "index"), it, it); err != nil {
+		return err
+	}
+	r2, err := git.PlainOpen(rw.dir)
+	if err != nil {
+		return err
+	}
+	rw.r = r2
+	rw.w, err = r2.Worktree()
+	return err
 }
